@@ -155,6 +155,7 @@ type world struct {
 	useRS   bool
 	// mirrors Storage.regionLoaded only to tell "skipped" from "loaded nothing"; reset with the Storage object
 	loadedOnce bool
+	maxCallbacks int // 3 x everything ever saved + 10
 }
 
 func (w *world) openRS() {
@@ -193,6 +194,30 @@ func dump(b kv.Base) []string {
 	return out
 }
 
+// endless aborts a load whose callback count exceeds anything a terminating scan can produce
+type endless struct{}
+
+func (w *world) guard(n *int) {
+	*n++
+	if *n > w.maxCallbacks {
+		panic(endless{})
+	}
+}
+
+// guarded runs a load; an endless scan is reported as RDiverged instead of hanging the driver
+func guarded(load func() error) (st string) {
+	defer func() {
+		if r := recover(); r != nil {
+			if _, ok := r.(endless); ok {
+				st = "RDiverged"
+				return
+			}
+			panic(r)
+		}
+	}()
+	return status(load())
+}
+
 func (w *world) exec(o *Op) string {
 	switch o.K {
 	case "savestore":
@@ -209,12 +234,14 @@ func (w *world) exec(o *Op) string {
 		}
 	case "loadstores":
 		var xs []string
-		err := w.st.LoadStores(func(s *core.StoreInfo) {
+		n := 0
+		st := guarded(func() error { return w.st.LoadStores(func(s *core.StoreInfo) {
+			w.guard(&n)
 			p, _ := strconv.ParseInt(strings.TrimPrefix(s.GetMeta().GetAddress(), "p"), 10, 64)
 			xs = append(xs, fmt.Sprintf("(%s, %s, %s, %s)", coqfmt.ZU(s.GetID()), coqfmt.Z(p),
 				coqfmt.Z(int64(math.Round(s.GetLeaderWeight()*1000))), coqfmt.Z(int64(math.Round(s.GetRegionWeight()*1000)))))
-		})
-		return "BStores " + status(err) + " " + coqfmt.List(xs)
+		}) })
+		return "BStores " + st + " " + coqfmt.List(xs)
 	case "saveregion":
 		r := o.V.region(o.ID)
 		o.Sz = proto.Size(r)
@@ -254,14 +281,18 @@ func (w *world) exec(o *Op) string {
 	case "loadregions", "loadonce":
 		var xs []string
 		called := false
+		n := 0
 		cb := func(r *core.RegionInfo) []*core.RegionInfo {
+			w.guard(&n)
 			called = true
 			xs = append(xs, coqItem(r.GetMeta()))
 			return nil
 		}
 		var err error
 		if o.K == "loadregions" {
-			err = w.st.LoadRegions(cb)
+			if st := guarded(func() error { return w.st.LoadRegions(cb) }); st != "RDone" {
+				return "BRegions " + st + " " + coqfmt.List(xs)
+			}
 		} else {
 			if w.useRS {
 				was := w.loadedOnce
@@ -280,10 +311,12 @@ func (w *world) exec(o *Op) string {
 	case "loadcache":
 		bc := core.NewBasicCluster()
 		var xs []string
-		err := w.st.LoadRegions(func(r *core.RegionInfo) []*core.RegionInfo {
+		n := 0
+		st := guarded(func() error { return w.st.LoadRegions(func(r *core.RegionInfo) []*core.RegionInfo {
+			w.guard(&n)
 			xs = append(xs, coqItem(r.GetMeta()))
 			return bc.CheckAndPutRegion(r)
-		})
+		}) })
 		rs := bc.GetRegions()
 		sort.Slice(rs, func(i, j int) bool { return rs[i].GetID() < rs[j].GetID() })
 		cs := make([]string, len(rs))
@@ -296,7 +329,7 @@ func (w *world) exec(o *Op) string {
 		} else {
 			after = dump(w.base.Base)
 		}
-		return fmt.Sprintf("BCache %s %s\n   %s\n   %s", status(err), coqfmt.List(xs), coqfmt.List(cs), coqfmt.List(after))
+		return fmt.Sprintf("BCache %s %s\n   %s\n   %s", st, coqfmt.List(xs), coqfmt.List(cs), coqfmt.List(after))
 	default:
 		panic("bad op " + o.K)
 	}
@@ -326,7 +359,7 @@ func runCase(c Case) Case {
 	} else {
 		inner = kv.NewMemoryKV()
 	}
-	w := &world{base: &budgetKV{Base: inner, budget: -1}, dir: dir}
+	w := &world{base: &budgetKV{Base: inner, budget: -1}, dir: dir, maxCallbacks: 3*len(c.Ops) + 10}
 	w.openRS()
 	out := Case{Backend: c.Backend}
 	for _, o := range c.Ops {
@@ -718,10 +751,16 @@ func checkGo(R *res.Result, c Case) {
 			dirty, known = false, false
 			pending = map[uint64]bool{}
 		case "loadstores":
+			if strings.HasPrefix(ob, "BStores RDiverged") {
+				R.Violate("C17:load:endless-scan", "LoadStores does not terminate (the callback was invoked more than 3x the number of saved items)", slim(c))
+			}
 			if wantStores[top] && strings.HasPrefix(ob, "BStores RDone") && !strings.Contains(ob, "("+coqfmt.ZU(top)+",") {
 				R.Violate("C17:load:max-id-never-loaded", fmt.Sprintf("a store with id 2^64-1 was saved and not deleted; LoadStores returned %d stores without it", strings.Count(ob, "(")), slim(c))
 			}
 		case "loadregions", "loadonce", "loadcache":
+			if strings.Contains(ob, " RDiverged ") {
+				R.Violate("C17:load:endless-scan", "the region load does not terminate (the callback was invoked more than 3x the number of saved items)", slim(c))
+			}
 			if ob == "BSkipped" || !strings.Contains(ob, " RDone ") || dirty || !known {
 				if strings.Contains(ob, " RDone ") && !dirty {
 					known = true
